@@ -104,13 +104,14 @@ type dsite struct {
 }
 
 type danalysis struct {
-	p       *Pkg
-	scope   ast.Node // innermost function (FuncDecl / FuncLit) containing the call
-	body    *ast.BlockStmt
-	fnBody  *ast.BlockStmt // body of the enclosing declared function
-	fnScope ast.Node
-	par     map[ast.Node]ast.Node
-	site    *dsite
+	p            *Pkg
+	scope        ast.Node // innermost function (FuncDecl / FuncLit) containing the call
+	body         *ast.BlockStmt
+	onlyDiscards bool
+	fnBody       *ast.BlockStmt // body of the enclosing declared function
+	fnScope      ast.Node
+	par          map[ast.Node]ast.Node
+	site         *dsite
 }
 
 func (d *danalysis) obj(id *ast.Ident) types.Object {
@@ -126,6 +127,15 @@ func (d *danalysis) mentions(n ast.Node, objs map[types.Object]bool) bool {
 	}
 	found := false
 	ast.Inspect(n, func(m ast.Node) bool {
+		if d.onlyDiscards {
+			// only `value.Discard(x)` counts (used by the double-release scan)
+			if c, ok := m.(*ast.CallExpr); ok && isValueFunc(calleeFunc(d.p, c), "Discard") && len(c.Args) == 1 {
+				if id, ok := c.Args[0].(*ast.Ident); ok && objs[d.obj(id)] {
+					found = true
+				}
+			}
+			return !found
+		}
 		if id, ok := m.(*ast.Ident); ok && objs[d.obj(id)] {
 			found = true
 		}
@@ -717,6 +727,7 @@ func (d *danalysis) localSliceSite(ix *ast.IndexExpr, call *ast.CallExpr) bool {
 }
 
 func genDiscardFacts() {
+	var doubles []dsite
 	var sites []*dsite
 	for _, pk := range []struct{ dir, path string }{{"query", queryPkg}, {"value", valuePkg}} {
 		p := loadPkg(filepath.Join(repoRoot(), "lib", pk.dir), pk.path)
@@ -737,6 +748,108 @@ func genDiscardFacts() {
 					}
 					return true
 				})
+				// a value released twice on one path: `defer value.Discard(x)` together with an explicit Discard(x) that the
+				// same execution passes, or two explicit Discards of x without a new value in between.  The object then sits
+				// in the pool twice and the next two allocations of its type are ONE object.
+				{
+					type rel struct {
+						c        *ast.CallExpr
+						stmt     ast.Node
+						deferred bool
+						obj      types.Object
+						scope    ast.Node
+					}
+					var rels []rel
+					for _, c := range calls {
+						if len(c.Args) != 1 {
+							continue
+						}
+						id, ok := c.Args[0].(*ast.Ident)
+						if !ok {
+							continue
+						}
+						o := p.Info.Uses[id]
+						if o == nil {
+							continue
+						}
+						var scope ast.Node = fd
+						for n := par[ast.Node(c)]; n != nil; n = par[n] {
+							if fl, ok := n.(*ast.FuncLit); ok {
+								scope = fl
+								break
+							}
+						}
+						st := par[ast.Node(c)]
+						_, isDefer := st.(*ast.DeferStmt)
+						rels = append(rels, rel{c, st, isDefer, o, scope})
+					}
+					reassignedBetween := func(o types.Object, from, to token.Pos) bool {
+						found := false
+						ast.Inspect(fd.Body, func(n ast.Node) bool {
+							if as, ok := n.(*ast.AssignStmt); ok && from < as.Pos() && as.Pos() < to {
+								for _, l := range as.Lhs {
+									if id, ok := l.(*ast.Ident); ok && (p.Info.Uses[id] == o || p.Info.Defs[id] == o) {
+										found = true
+									}
+								}
+							}
+							return true
+						})
+						return found
+					}
+					encloses := func(blockOf ast.Node, inner ast.Node) bool {
+						blk := par[blockOf]
+						for n := inner; n != nil; n = par[n] {
+							if n == blk {
+								return true
+							}
+						}
+						return false
+					}
+					seenDouble := map[string]bool{}
+					addDouble := func(a, b rel, how string) {
+						k := fmt.Sprintf("%d|%d", a.c.Pos(), b.c.Pos())
+						if seenDouble[k] {
+							return
+						}
+						seenDouble[k] = true
+						doubles = append(doubles, dsite{file: p.base(b.c.Pos()), fn: funcLabel(fd), v: a.obj.Name(), line: p.line(b.c.Pos()),
+							why: []string{fmt.Sprintf("%s (lines %d and %d)", how, p.line(a.c.Pos()), p.line(b.c.Pos()))}})
+					}
+					for i, a := range rels {
+						for j, b := range rels {
+							if i == j || a.obj != b.obj || a.scope != b.scope || a.c.Pos() >= b.c.Pos() {
+								continue
+							}
+							if reassignedBetween(a.obj, a.c.Pos(), b.c.Pos()) {
+								continue
+							}
+							switch {
+							case a.deferred && !b.deferred:
+								// the deferred release is registered in a block that encloses the explicit one
+								if encloses(a.stmt, b.stmt) {
+									addDouble(a, b, "released explicitly and again by the deferred Discard registered before")
+								}
+							case a.deferred && b.deferred:
+								if encloses(a.stmt, b.stmt) {
+									addDouble(a, b, "two deferred Discards of the same value")
+								}
+							default:
+								// a explicit: does some path from a reach b (explicit or defer registration) ?
+								if _, ok := a.stmt.(*ast.ExprStmt); ok {
+									var body = fd.Body
+									if fl, ok := a.scope.(*ast.FuncLit); ok {
+										body = fl.Body
+									}
+									dd := &danalysis{p: p, scope: a.scope, body: body, fnBody: fd.Body, fnScope: fd, par: par, site: &dsite{}, onlyDiscards: true}
+									if dd.usedAfter(a.stmt, map[types.Object]bool{a.obj: true}) {
+										addDouble(a, b, "released twice on one path without a new value in between")
+									}
+								}
+							}
+						}
+					}
+				}
 				for _, c := range calls {
 					s := &dsite{file: p.base(c.Pos()), fn: funcLabel(fd), line: p.line(c.Pos()), fresh: true}
 					sites = append(sites, s)
@@ -903,6 +1016,14 @@ func genDiscardFacts() {
 		}
 		fmt.Fprintf(&o, "  ⟨%s, %d, %s, %s, %v, %v, %v, %s⟩%s\n", leanStr(s.file), s.line, leanStr(s.fn), leanStr(s.v), s.fresh, s.used, s.escape,
 			leanStr(strings.Join(s.why, "; ")), sep)
+	}
+	o.WriteString("]\n\n/-- a value handed to value.Discard twice on one path (file, line, function, variable, how) -/\ndef doubleDiscardFacts : List AstWriteFact := [\n")
+	for i, dd := range doubles {
+		sep := ","
+		if i == len(doubles)-1 {
+			sep = ""
+		}
+		fmt.Fprintf(&o, "  ⟨%s, %d, %s, %s, %s⟩%s\n", leanStr(dd.file), dd.line, leanStr(dd.fn), leanStr(dd.v), leanStr(strings.Join(dd.why, "; ")), sep)
 	}
 	o.WriteString("]\n\n/-- (conversion, every return statement is a value.New* call, detail) -/\ndef conversionFacts : List (String × Bool × String) := [\n")
 	for i, c := range ctors {
